@@ -59,6 +59,15 @@ impl HtmlFilterBodyAction {
         let mut data = self.last_buffer.clone();
         data.extend(input);
 
+        // A chunk may end inside a multi-byte character: keep the incomplete sequence for the next chunk
+        let mut pending = Vec::new();
+
+        if let Err(err) = std::str::from_utf8(&data) {
+            if err.error_len().is_none() {
+                pending = data.split_off(err.valid_up_to());
+            }
+        }
+
         let mut tokenizer = html::Tokenizer::new(data);
         let mut to_return = "".to_string();
 
@@ -81,6 +90,7 @@ impl HtmlFilterBodyAction {
                     self.last_buffer = token_data.into_bytes();
                     self.last_buffer.extend(tokenizer.raw());
                     self.last_buffer.extend(tokenizer.buffered());
+                    self.last_buffer.extend(pending);
 
                     return Ok(to_return.into_bytes());
                 }
@@ -143,6 +153,8 @@ impl HtmlFilterBodyAction {
                 to_return.push_str(token_data.as_str());
             }
         }
+
+        self.last_buffer.extend(pending);
 
         Ok(to_return.into_bytes())
     }
